@@ -719,4 +719,8 @@ def is_consistent(C):
 
     Order as computed by :func:`ro`.
     """
-    return not C3.resolver(C, False, None).had_inconsistency
+    resolver = C3.resolver(C, False, None)
+    # An inconsistency in *C* itself is only discovered by actually
+    # computing its resolution order.
+    resolver.mro()
+    return not resolver.had_inconsistency
